@@ -130,7 +130,8 @@ Definition first_share_len (tr : list tev) : N :=
   match filter is_share tr with TShare l _ _ :: _ => l | _ => 0 end.
 
 (* opcode: 1 blk readonly, 2 blk flush, 3 console size, 4 console emergency_write, 5 gpu get_edid,
-   6 net header, 7 net send, 8 rng request *)
+   6 net header, 7 net send, 8 rng request, 9 / 10 gpu edid_preferred_resolution / edid_supported_resolutions,
+   11 offset of a received frame in its buffer (buffered net driver) *)
 Definition gate_ok_b (f opc rc rv : N) (saw_indirect : bool) (used_event : N) (tr : list tev) : bool :=
   (* common to every operation: indirect descriptors and the event index only if negotiated *)
   implb (saw_indirect || table_shared tr) (bit f B_INDIRECT)
@@ -143,10 +144,11 @@ Definition gate_ok_b (f opc rc rv : N) (saw_indirect : bool) (used_event : N) (t
             && implb (bit f 0 && (rc =? 0)) (negb (rv =? 0))
      | 4 => implb (existsb is_cfg tr) (bit f 2)                         (* emerg_wr only with VIRTIO_CONSOLE_F_EMERG_WRITE *)
             && implb (negb (bit f 2)) ((rc =? 1) && (rv =? EUnsupported))
-     | 5 => implb (existsb is_share tr || existsb is_notify tr) (bit f 1)   (* GET_EDID only with VIRTIO_GPU_F_EDID *)
+     | 5 | 9 | 10 => implb (existsb is_share tr || existsb is_notify tr) (bit f 1)   (* GET_EDID only with VIRTIO_GPU_F_EDID, through every entry point *)
             && implb (negb (bit f 1)) ((rc =? 1) && (rv =? EUnsupported))
      | 6 => (rc =? 0) && (rv =? (if bit f B_VERSION_1 then 12 else 10))   (* 5.1.6: num_buffers present iff VERSION_1 (MRG_RXBUF never negotiated) *)
      | 7 => first_share_len tr =? (if bit f B_VERSION_1 then 12 else 10)
+     | 11 => (rc =? 0) && (rv =? (if bit f B_VERSION_1 then 12 else 10))    (* received frames are found behind the header of the negotiated form *)
      | _ => true
      end.
 
